@@ -200,7 +200,7 @@ def pytorch_stft_frame_computer(
             rem -= sig_len
             flipped = not flipped
         sig = torch.cat(pieces)
-    sig = sig.as_strided((num_frames, frame_length), (frame_shift, 1))
+    sig = sig.contiguous().as_strided((num_frames, frame_length), (frame_shift, 1))
     y: List[torch.Tensor] = []
     if include_energy:
         energy = torch.linalg.norm(sig, 2, 1) / math.sqrt(frame_length)
